@@ -92,7 +92,8 @@ def swap_auto_exists(colors0, adj, a, b, fixed, limit=200000):
     return rec(*joint(c1,c2))
 
 def local_swap_ok(colors0, adj):
-    orb=orbits(colors0,adj)
+    # neighbours that colour refinement (what a Morgan ranking can see) leaves tied; true orbit mates are a subset of these
+    orb=refine(colors0,adj)
     bad=[]
     for v in adj:
         nb=list(adj[v])
